@@ -39,6 +39,7 @@ inner.invariants = [('rsp-untouched', 'list_mark(rsp) == _irm'),
                     ('progress', '_done + _todo == proposed_ts'),
                     ('passed-over-unsupported', 'all_map(N.ts_unsupported, _done)')]
 inner.lemmas_head = ['_inner = True', '_y = reveal_head(_todo, N.ts_unsupported)']
+inner.allow_break = True      # a search loop: it stops at the first supported transfer syntax
 
 # ---- C09: the answer to one proposed context
 _ANSWER = [
